@@ -26,9 +26,11 @@ ASSUMPTIONS = [
     "texts refused by the schema-less loader are outside the quantifier (they are C03's business); only %define/%include refusal is checked on them",
 ]
 URL = "file:///zcv/main.conf"
+import os as _os
+_os.environ["ZCV_EMPTY"] = ""          # a variable that is set, to nothing
 EXTRA_SHAPES = ["k a$$b", "k $$", "k (x", "K v2", "k v", "%import q$$", "<a/ >", "<a n/ >",
                 "</a/>", "<B N>", "</B>", "%import p", "<a//>", "<a n//>",
-                "k a\u2028b", "k a\x0cb\x85c", "k a\rb"]
+                "k a\u2028b", "k a\x0cb\x85c", "k a\rb", "%include $(ZCV_EMPTY)", "%define $(ZCV_EMPTY)", "<a A>", "<b B/>"]
 
 
 def _mods():
